@@ -545,6 +545,7 @@ int vs_active(void) { return 1; }
 void vs_quiesce(void) { yield_point(OP_QUIESCE, NULL, 0); }
 void vs_yield(void) { yield_point(OP_YIELD, NULL, 0); }
 long vs_points(void) { return npoints; }
+int vs_unjoined(void) { int n = 0; for (int i = 1; i < nthr; i++) if (!thr[i].joined) n++; return n; }
 long vs_fini(void) { write_summary("ok"); if (trace_f) { fclose(trace_f); trace_f = NULL; } return npoints; }
 void vs_hash_region(void *p, size_t n) {
     for (int i = 0; i < ex_nregion; i++) if (ex_region[i].p == p) { ex_region[i].n = n; return; }
